@@ -2168,6 +2168,138 @@ def out9(units, R, fn_name='parse_string'):
     R.floor('OUT9', 'clauses of the output bound of %s' % fn_name, n, 4)
 
 
+# ---- TAB24: the depth bounds are exactly the documented limits ---------------------------------------------------------------------
+
+def _depth_gate(e, is_depth):
+    """(op, K, pass label) for a branch condition that compares the depth quantity with a constant: the edge on which the level is
+    allowed to go on"""
+    e = strip_casts(e)
+    neg = False
+    while e.get('k') == 'un' and e['op'] == '!':
+        neg = not neg
+        e = strip_casts(e['e'])
+    if e.get('k') != 'bin' or e['op'] not in ('<', '<=', '>', '>='):
+        return None
+    l, r = strip_casts(e['l']), strip_casts(e['r'])
+    op = e['op']
+    if is_depth(r) and const_val(l) is not None:
+        l, r = r, l
+        op = {'<': '>', '<=': '>=', '>': '<', '>=': '<='}[op]
+    if not (is_depth(l) and const_val(r) is not None):
+        return None
+    K = const_val(r)
+    # normalise to a refusal test  depth >= K  /  depth > K  and the label on which it does NOT refuse
+    if op in ('>=', '>'):
+        return (op, K, 'T' if neg else 'F')
+    return ({'<': '>=', '<=': '>'}[op], K, 'F' if neg else 'T')
+
+
+def tab1_bound(units, R, dup_name='cJSON_Duplicate_rec', floor=2):
+    """The two recursion bounds are the documented ones, to the level.
+      parser      a text with exactly CJSON_NESTING_LIMIT nested containers is accepted: every test of the depth counter on the way
+                  into a container sees the number of containers that enclose it (the counter before this level's own increment)
+                  and refuses at `>= LIMIT` - or sees it after the increment and refuses at `> LIMIT`; a test that looks at the
+                  counter after the level has been counted and still refuses at `>=` rejects the LIMIT-th level;
+      duplicator  a node LIMIT levels below the root is copied, one level more is refused: a test of the depth parameter that every
+                  successful return lies behind judges the node itself (it must let depth == LIMIT pass: `>`), a test that only
+                  the recursive call lies behind judges the children, which are one deeper (`>=`)."""
+    u = units['cJSON.c']
+    n = 0
+    # ---- parser: the depth member of the parse buffer
+    from .bnd import parse_family
+    try:
+        fam = parse_family(u)
+    except AnalysisBroken:
+        fam = []            # a unit without a parser (fixtures): only the duplicator is judged
+    famnames = {f.name for f in fam}
+    limit = None
+
+    def is_counter(x):
+        x = strip_casts(x)
+        return x.get('k') == 'mem' and x['f'] == 'depth'
+    gates = []
+    for fn in fam:
+        cfg = fn.cfg()
+        for m in cfg.nodes:
+            if m.kind == 'branch' and m.expr is not None:
+                g = _depth_gate(m.expr, is_counter)
+                if g is not None:
+                    gates.append((fn, cfg, m, g))
+    callers = {}
+    for fn in fam:
+        for c in fn.calls():
+            if callee_name(c) in famnames:
+                callers.setdefault(callee_name(c), []).append((fn, c))
+
+    def incs_before(fn, cfg, node_id, seen):
+        """number of depth increments every path from the entry of the level (parse_value) to this node passes"""
+        count = 0
+        for m in cfg.nodes:
+            for ev in node_effects(m):
+                if ev.kind == 'incdec' and ev.delta > 0 and is_counter(ev.lhs) and m.id != node_id:
+                    if node_id not in cfg.reachable(cfg.entry.id, stop={m.id}):
+                        count += 1
+        if fn.name == 'parse_value' or fn.name in seen:
+            return {count}
+        outs = set()
+        for (g, c) in callers.get(fn.name, []):
+            gcfg = g.cfg()
+            cn = gcfg.node_of_expr(c['id'])
+            if cn is None:
+                continue
+            for k in incs_before(g, gcfg, cn.id, seen | {fn.name}):
+                outs.add(count + k)
+        return outs or {count}
+    for (fn, cfg, m, (op, K, passlab)) in gates:
+        for c_before in sorted(incs_before(fn, cfg, m.id, frozenset())):
+            n += 1
+            # the test sees (enclosing containers + c_before); level k (k-1 enclosing) passes iff k-1+c_before < K (>=) or <= K (>)
+            max_levels = K - c_before if op == '>=' else K - c_before + 1
+            R.ob('TAB24', fn, m.expr, 'a text nested exactly %d containers deep is accepted' % K, max_levels == K,
+                 'the counter is tested before this level is counted' if (max_levels == K and c_before == 0) else
+                 ('the counter is tested after this level was counted, against > %d' % K if max_levels == K else
+                  'the test %s sees the counter after %d increment(s) of this level and refuses from %s %d on: at most %d levels are '
+                  'accepted' % (expr_str(m.expr)[:40], c_before, op, K, max_levels)), key='parse-gate:%s:%d' % (fn.name, c_before))
+    # ---- duplicator: the depth parameter
+    dup = u.functions.get(dup_name)
+    if dup is not None and dup.body is not None:
+        ints = [p_ for p_ in dup.params if u.ty(p_['ty'])['c'] == 'int' and not u.ty(p_['ty']).get('bool')]
+        rec = [c for c in dup.calls() if callee_name(c) == dup.name]
+        dpar = None
+        step = None
+        for p_ in ints:
+            i_ = [k for k, q in enumerate(dup.params) if q['d'] == p_['d']][0]
+            for c in rec:
+                a = strip_casts(c['args'][i_]) if i_ < len(c['args']) else {}
+                if a.get('k') == 'bin' and a['op'] == '+' and strip_casts(a['l']).get('d') == p_['d'] and const_val(a['r']) is not None:
+                    dpar, step = p_, const_val(a['r'])
+        if dpar is not None and rec:
+            cfg = dup.cfg()
+
+            def is_dpar(x):
+                x = strip_casts(x)
+                return x.get('k') == 'ref' and x.get('d') == dpar['d']
+            succ_rets = [r_ for r_ in cfg.returns() if r_.expr is not None and not is_null_const(r_.expr) and const_val(r_.expr) != 0]
+            for m in cfg.nodes:
+                if m.kind != 'branch' or m.expr is None:
+                    continue
+                g = _depth_gate(m.expr, is_dpar)
+                if g is None:
+                    continue
+                op, K, passlab = g
+                n += 1
+                judges_node = bool(succ_rets) and all(guarded_by(cfg, r_.id, lambda nn, l, m=m, passlab=passlab: nn.id == m.id and l is not None and l[0] == passlab)
+                                                      for r_ in succ_rets)
+                deepest = (K - 1 if op == '>=' else K) + (0 if judges_node else step)
+                R.ob('TAB24', dup, m.expr, 'a node exactly %d levels below the root is copied, one level more is refused' % K, deepest == K,
+                     ('the test judges the %s' % ('node itself' if judges_node else 'children, which are %d deeper' % step)) if deepest == K else
+                     'the test %s lies in front of every successful return, so it judges the node itself: the deepest node copied is at '
+                     'level %d' % (expr_str(m.expr)[:40], deepest) if judges_node else
+                     'the test %s judges the children (depth + %d): the deepest node copied is at level %d' % (expr_str(m.expr)[:40], step, deepest),
+                     key='dup-gate')
+    R.floor('TAB24', 'tests of a recursion depth against its limit', n, floor)
+
+
 # ---- TAB6 UTF-16 / UTF-8 constants ----------------------------------------------------------------------------------------
 
 def tab6(units, R):
